@@ -234,3 +234,12 @@ package revocation
 //@   modifies nothing
 //@   loop 0 invariant 0 <= $i && $i <= 5 && responses != nil && fresh(responses) && forall j in 0..$i :: in(responses, secretNames[j]) && responses[secretNames[j]] != nil && val(responses[secretNames[j]]) == val(c.randomizers[secretNames[j]]) + prod(val(challenge), val(c.secrets[secretNames[j]]))
 //@   loop 0 modifies mapof(responses), onlyfresh("BV")
+
+//@ # refresh of a prepared commitment after the witness moved on: C_u is a reduced residue (the verifier insists on 0 < C_u < N) and the commitment points at the witness's current accumulator
+//@ func (*ProofCommit).Update
+//@   property C11
+//@   nopanic off
+//@   requires c != nil && c.g != nil && c.g.H != nil && c.g.N != nil && val(c.g.N) > 0 && c.secrets["epsilon"] != nil && val(c.secrets["epsilon"]) >= 0
+//@   requires witness != nil && witness.U != nil && witness.SignedAccumulator != nil && witness.SignedAccumulator.Accumulator != nil && len(commitments) >= 5
+//@   assert at zkproof.NewBaseMerge reduced: c.cu != nil && 0 <= val(c.cu) && val(c.cu) < val(c.g.N) && val(c.cu) == rem(prod(pow(val(c.g.H), val(c.secrets["epsilon"]), val(c.g.N)), val(witness.U)), val(c.g.N))
+//@   assert at zkproof.NewBaseMerge current: c.nu == witness.SignedAccumulator.Accumulator.Nu && c.sacc == witness.SignedAccumulator
